@@ -25,8 +25,9 @@ type fn struct {
 	variadic      bool
 	results       []string
 	mut, eff, pan bool
-	clk, slp      bool // in a unit with an explicit clock: reads it (extra parameter now_) / advances it (now_ is also returned)
-	fuel          bool // contains a general `for` loop: extra parameter fuel_, the result is an option (None = out of fuel)
+	clk, slp      bool         // in a unit with an explicit clock: reads it (extra parameter now_) / advances it (now_ is also returned)
+	namedRes      []*ast.Ident // named results
+	fuel          bool         // contains a general `for` loop: extra parameter fuel_, the result is an option (None = out of fuel)
 	busy, done    bool
 	text          string
 }
@@ -54,6 +55,8 @@ type tr struct {
 	ifaces    map[string]*ast.InterfaceType
 	named     map[string]ast.Expr // type X <not a struct, not an interface>
 	constIota map[string]int      // position of a constant in its const block
+	aux       map[string]bool     // helpers: translated because a listed function calls them
+	cur       *fn                 // the function being translated
 }
 
 // ---------------------------------------------------------------- types (a type is its Gallina text)
@@ -373,9 +376,9 @@ func (t *tr) callee(c *ast.CallExpr, typeOf func(*ast.Ident) string) (*fn, *ast.
 func (t *tr) shapes() {
 	for changed := true; changed; {
 		changed = false
-		for _, k := range t.unit.funcs {
+		for _, k := range t.keys() {
 			f := t.fns[k]
-			mut, eff, pan := f.mut, f.eff, f.pan
+			mut, eff, pan, fuel := f.mut, f.eff, f.pan, f.fuel
 			onRecv := func(e ast.Expr) bool { r := rootIdent(e); return r != nil && f.recv != nil && r.Obj == f.recv }
 			ast.Inspect(f.d.Body, func(n ast.Node) bool {
 				switch s := n.(type) {
@@ -451,7 +454,7 @@ func (t *tr) shapes() {
 				}
 				return true
 			})
-			changed = changed || mut != f.mut || eff != f.eff || pan != f.pan
+			changed = changed || mut != f.mut || eff != f.eff || pan != f.pan || fuel != f.fuel
 		}
 	}
 }
@@ -602,6 +605,13 @@ func (t *tr) translate(f *fn) {
 		t.fail(f.d, "recursion through %s", f.key)
 	}
 	f.busy = true
+	prev := t.cur
+	t.cur = f
+	defer func() {
+		if f.done {
+			t.cur = prev
+		}
+	}()
 	if f.mut && !f.ptrRecv {
 		t.fail(f.d, "method %s, which modifies a value receiver", f.key)
 	}
@@ -645,8 +655,12 @@ func (t *tr) translate(f *fn) {
 		for _, r := range f.d.Type.Results.List {
 			for _, id := range r.Names {
 				usedInBody := false
+				f.namedRes = append(f.namedRes, id)
 				ast.Inspect(f.d.Body, func(n ast.Node) bool {
 					if x, ok := n.(*ast.Ident); ok && x.Obj != nil && x.Obj == id.Obj {
+						usedInBody = true
+					}
+					if r, ok := n.(*ast.ReturnStmt); ok && len(r.Results) == 0 {
 						usedInBody = true
 					}
 					return !usedInBody
@@ -836,14 +850,53 @@ func (c *fctx) stmt(s ast.Stmt, k func() string) string {
 				}
 			}
 		}
+		if len(s.Results) == 0 && len(c.f.namedRes) == len(c.f.results) && len(c.f.results) > 0 { // bare return: the named results
+			var vals []string
+			for _, id := range c.f.namedRes {
+				vals = append(vals, c.names[id.Obj])
+			}
+			return c.ret(vals)
+		}
+		if len(s.Results) == 1 && len(c.f.results) != 1 || len(s.Results) == 1 && c.impureCall(s.Results[0]) {
+			if call, ok := s.Results[0].(*ast.CallExpr); ok { // return f(args): bind the results of the listed function f, then return them
+				if g, _ := t.callee(call, c.typeOfIdent); g != nil && len(g.results) == len(c.f.results) {
+					as := &ast.AssignStmt{Tok: token.DEFINE, TokPos: s.Pos(), Rhs: []ast.Expr{call}}
+					ret := &ast.ReturnStmt{Return: s.Return}
+					for i := range g.results {
+						id := &ast.Ident{Name: "ret_" + strconv.Itoa(i), NamePos: s.Pos()}
+						id.Obj = ast.NewObj(ast.Var, id.Name)
+						as.Lhs = append(as.Lhs, id)
+						ret.Results = append(ret.Results, id)
+					}
+					return c.callStmt(call, as, func() string { return c.stmt(ret, k) })
+				}
+			}
+		}
+		if len(s.Results) == len(c.f.results) { // return a, f(x) with a listed f that cannot stand in an expression: x_ := f(x); return a, x_
+			for i, r := range s.Results {
+				call, isCall := r.(*ast.CallExpr)
+				if !isCall || !c.impureCall(r) {
+					continue
+				}
+				if g, _ := t.callee(call, c.typeOfIdent); len(g.results) == 1 {
+					id := &ast.Ident{Name: "ret_" + strconv.Itoa(i), NamePos: r.Pos()}
+					id.Obj = ast.NewObj(ast.Var, id.Name)
+					as := &ast.AssignStmt{Tok: token.DEFINE, TokPos: s.Pos(), Lhs: []ast.Expr{id}, Rhs: []ast.Expr{call}}
+					rest := &ast.ReturnStmt{Return: s.Return, Results: append(append(append([]ast.Expr{}, s.Results[:i]...), id), s.Results[i+1:]...)}
+					return c.callStmt(call, as, func() string { return c.stmt(rest, k) })
+				}
+			}
+		}
 		if len(s.Results) != len(c.f.results) {
-			t.fail(s, "return statement (bare return with named results, or a multi-valued call)")
+			t.fail(s, "return statement (a multi-valued call)")
 		}
 		var vals []string
 		for i, r := range s.Results {
 			v, ty := c.expr(r, c.f.results[i])
 			if c.f.results[i] == "option "+paren(ty) { // a *S result that may be nil
 				v = "Some " + paren(v)
+			} else if ty != "" && ty != c.f.results[i] { // e.g. a struct returned as an interface value
+				t.fail(r, "return of a value of type %s as %s", ty, c.f.results[i])
 			}
 			vals = append(vals, v)
 		}
@@ -978,6 +1031,16 @@ func (c *fctx) assignOnly(s *ast.IfStmt) ([]*ast.Object, bool) {
 		return ok
 	})
 	return vars, ok
+}
+
+// impureCall: a call of a listed function that cannot stand inside an expression.
+func (c *fctx) impureCall(e ast.Expr) bool {
+	call, ok := e.(*ast.CallExpr)
+	if !ok {
+		return false
+	}
+	g, _ := c.t.callee(call, c.typeOfIdent)
+	return g != nil && !g.pure()
 }
 
 func firstLine(s string) string {
